@@ -883,6 +883,19 @@ func (li *loopInfo) hasFieldStore() bool {
 	return false
 }
 
+func (li *loopInfo) hasAnyCall() bool {
+	for b := range li.blocks {
+		for _, in := range b.Instrs {
+			if cc, ok := in.(*ssa.Call); ok {
+				if _, isB := cc.Common().Value.(*ssa.Builtin); !isB {
+					return true
+				}
+			}
+		}
+	}
+	return false
+}
+
 func (li *loopInfo) hasDynCall() bool {
 	for b := range li.blocks {
 		for _, in := range b.Instrs {
@@ -919,7 +932,7 @@ func (x *Exec) havocLoop(st *State, li *loopInfo) {
 		}
 		fr.cells[a] = old
 	}
-	if st.ghost != nil && (li.hasByteAppend() || li.hasDynCall() || (x.fc != nil && len(x.fc.StoreGhost) > 0 && li.hasFieldStore())) {
+	if st.ghost != nil && (li.hasByteAppend() || li.hasDynCall() || (x.fc != nil && len(x.fc.StoreGhost) > 0 && li.hasFieldStore()) || (x.fc != nil && len(x.fc.CallGhost) > 0 && li.hasAnyCall())) {
 		var gn []string
 		for k := range st.ghost {
 			gn = append(gn, k)
